@@ -922,3 +922,96 @@ def stale_shared_memos(p, res, rels):
                 if missing:
                     out.append((fi, n, name, missing))
     return out
+
+
+def mutated_cached_values(p, res, rels, producers=("json.loads",)):
+    """[(caller, call, helper, decorator, callee, store node)]: a memoised helper hands out a mutable value (the result of
+    json.loads …); a caller passes it to a function that writes into that parameter in place — the cache then serves the
+    modified value to every later call with the same key (any instance, any schema)."""
+    import ast as _a
+    out = []
+    helpers = {}
+    for f in p.all_funcs:
+        if f.module.rel not in rels:
+            continue
+        deco = [d for d in getattr(f.node, "decorator_list", []) if any(k in src(d) for k in ("cache", "memo"))]
+        if deco and any(isinstance(n, _a.Call) and dotted(n.func) in producers for n in walk_no_nested(f.node)):
+            helpers[f.key] = (f, deco[0])
+    if not helpers:
+        return out
+    # functions that hand a helper's value on unchanged (some `return helper(...)` / `return name` bound to one) count as helpers
+    grew = True
+    while grew:
+        grew = False
+        for f in p.all_funcs:
+            if f.module.rel not in rels or f.key in helpers:
+                continue
+            names = {}
+            for n in _a.walk(f.node):
+                if isinstance(n, _a.Assign) and isinstance(n.value, _a.Call):
+                    hk = next((t.key for t in res.resolve_call(f, n.value) if t.key in helpers), None)
+                    if hk:
+                        for t in n.targets:
+                            if isinstance(t, _a.Name):
+                                names[t.id] = hk
+            for r in [n for n in walk_no_nested(f.node) if isinstance(n, _a.Return) and n.value is not None]:
+                hk = None
+                if isinstance(r.value, _a.Call):
+                    hk = next((t.key for t in res.resolve_call(f, r.value) if t.key in helpers), None)
+                elif isinstance(r.value, _a.Name):
+                    hk = names.get(r.value.id)
+                if hk:
+                    helpers[f.key] = helpers[hk]
+                    grew = True
+                    break
+
+    def writes_param(g, pname, depth=0):
+        """first in-place write into parameter `pname` of g (before any rebinding of the name), directly or by passing it on"""
+        for n in _a.walk(g.node):
+            if isinstance(n, _a.Assign) and any(isinstance(t, _a.Name) and t.id == pname for t in n.targets):
+                return None          # rebound (e.g. to a copy): conservative — treat as safe
+        if depth < 2:
+            for c in _a.walk(g.node):
+                if isinstance(c, _a.Call):
+                    for h2 in res.resolve_call(g, c):
+                        hp = h2.params()
+                        off2 = 1 if hp and hp[0] == "self" and isinstance(c.func, _a.Attribute) else 0
+                        for i2, a2 in enumerate(c.args):
+                            if isinstance(a2, _a.Name) and a2.id == pname and i2 + off2 < len(hp) and h2 is not g:
+                                st2 = writes_param(h2, hp[i2 + off2], depth + 1)
+                                if st2 is not None:
+                                    return st2
+        for n in _a.walk(g.node):
+            if isinstance(n, (_a.Assign, _a.AugAssign)):
+                for t in (n.targets if isinstance(n, _a.Assign) else [n.target]):
+                    if isinstance(t, _a.Subscript) and isinstance(t.value, _a.Name) and t.value.id == pname:
+                        return n
+            if isinstance(n, _a.Call) and isinstance(n.func, _a.Attribute) and n.func.attr in ("update", "setdefault", "pop", "popitem", "clear", "append", "extend", "insert", "remove") \
+                    and isinstance(n.func.value, _a.Name) and n.func.value.id == pname:
+                return n
+        return None
+    for f in p.all_funcs:
+        if f.module.rel not in rels or f.key in helpers:
+            continue
+        from_cache = {}
+        for n in _a.walk(f.node):
+            if isinstance(n, _a.Assign) and isinstance(n.value, _a.Call) and any(t.key in helpers for t in res.resolve_call(f, n.value)):
+                hk = next(t.key for t in res.resolve_call(f, n.value) if t.key in helpers)
+                for t in n.targets:
+                    if isinstance(t, _a.Name):
+                        from_cache[t.id] = hk
+        if not from_cache:
+            continue
+        for c in _a.walk(f.node):
+            if not isinstance(c, _a.Call):
+                continue
+            for g in res.resolve_call(f, c):
+                gp = g.params()
+                off = 1 if gp and gp[0] == "self" and isinstance(c.func, _a.Attribute) else 0
+                for i, a in enumerate(c.args):
+                    if isinstance(a, _a.Name) and a.id in from_cache and i + off < len(gp):
+                        st = writes_param(g, gp[i + off])
+                        if st is not None:
+                            h, d = helpers[from_cache[a.id]]
+                            out.append((f, c, h, d, g, st))
+    return out
